@@ -669,3 +669,126 @@ func IsNamed(t types.Type, pkgPath, name string) bool {
 
 // HasSuffixPath reports whether access path p ends with the field chain suffix (".a.b").
 func HasSuffixPath(p, suffix string) bool { return strings.HasSuffix(p, suffix) }
+
+// FieldRoot canonicalises the value of a struct field read from a local struct variable through whole-struct copies:
+// in   a := p; a.Version = x; b := a; use(b.Key)   the value of b.Key is the field Key of p. The result names the
+// root ("param p#Key", "t12#Key" for a local whose field is written directly, "call t7#Key" for a struct returned by a
+// call). Local copies introduced by parameter passing - in the source or by the inlining normal form - do not change it.
+// "" means: not a field of a local struct, or the copies disagree.
+func FieldRoot(v ssa.Value) string {
+	u, ok := v.(*ssa.UnOp)
+	if !ok || u.Op != token.MUL {
+		if f, isF := v.(*ssa.Field); isF {
+			return structRoot(f.X, f.Field, map[ssa.Value]bool{})
+		}
+		return ""
+	}
+	fa, ok := u.X.(*ssa.FieldAddr)
+	if !ok {
+		return ""
+	}
+	r := cellFieldRoot(fa.X, fa.Field, map[ssa.Value]bool{})
+	if r == "~" {
+		return ""
+	}
+	return r
+}
+
+// cellFieldRoot: the root of field idx of the struct stored in the cell addr.
+func cellFieldRoot(addr ssa.Value, idx int, seen map[ssa.Value]bool) string {
+	al, ok := addr.(*ssa.Alloc)
+	if !ok {
+		if fv, isFV := addr.(*ssa.FreeVar); isFV {
+			if b, isAl := bindingOf(fv).(*ssa.Alloc); isAl {
+				return cellFieldRoot(b, idx, seen)
+			}
+		}
+		return fmt.Sprintf("%s#%d", addr.Name(), idx)
+	}
+	if seen[al] {
+		return "~" // a cycle contributes nothing
+	}
+	seen[al] = true
+	refs := al.Referrers()
+	if refs == nil {
+		return ""
+	}
+	var roots []string
+	for _, r := range *refs {
+		switch x := r.(type) {
+		case *ssa.Store:
+			if x.Addr == ssa.Value(al) {
+				roots = append(roots, structRoot(x.Val, idx, seen))
+			}
+		case *ssa.FieldAddr:
+			if x.Field != idx || x.Referrers() == nil {
+				continue
+			}
+			for _, rr := range *x.Referrers() {
+				if st, isSt := rr.(*ssa.Store); isSt && st.Addr == ssa.Value(x) {
+					// the field is written directly: this cell is a root of its own
+					return fmt.Sprintf("%s#%d", al.Name(), idx)
+				}
+			}
+		}
+	}
+	res := ""
+	for _, r := range roots {
+		if r == "~" {
+			continue
+		}
+		if r == "" {
+			return ""
+		}
+		if res == "" {
+			res = r
+		} else if res != r {
+			return ""
+		}
+	}
+	if res == "" {
+		if len(roots) > 0 {
+			return "~" // only copies of copies that are being resolved further up
+		}
+		return fmt.Sprintf("%s#%d", al.Name(), idx)
+	}
+	return res
+}
+
+// structRoot: the root of field idx of the struct VALUE v.
+func structRoot(v ssa.Value, idx int, seen map[ssa.Value]bool) string {
+	switch x := v.(type) {
+	case *ssa.UnOp:
+		if x.Op == token.MUL {
+			if fa, ok := x.X.(*ssa.FieldAddr); ok {
+				// a struct field of a struct: keep it symbolic
+				return fmt.Sprintf("%s.%d#%d", fa.X.Name(), fa.Field, idx)
+			}
+			return cellFieldRoot(x.X, idx, seen)
+		}
+	case *ssa.Parameter:
+		return fmt.Sprintf("param %s#%d", x.Name(), idx)
+	case *ssa.Phi:
+		res := ""
+		for _, e := range x.Edges {
+			r := structRoot(e, idx, seen)
+			if r == "~" {
+				continue
+			}
+			if r == "" || (res != "" && res != r) {
+				return ""
+			}
+			res = r
+		}
+		return res
+	case *ssa.Call:
+		// T.Copy()-like methods keep every field: follow the receiver
+		if len(x.Call.Args) == 1 && !x.Call.IsInvoke() {
+			if cal := StaticCallee(x); cal != nil && cal.Name() == "Copy" && cal.Signature.Recv() != nil {
+				return structRoot(x.Call.Args[0], idx, seen)
+			}
+		}
+		return fmt.Sprintf("call %s#%d", x.Name(), idx)
+	}
+	return fmt.Sprintf("%s#%d", v.Name(), idx)
+}
